@@ -1878,7 +1878,11 @@ bool Node::perform_handshake(const PeerId& peer_id,
     const auto existing = handshake_state_.find(key);
     if (existing != handshake_state_.end()) {
         const auto elapsed = now - existing->second.last_attempt;
-        if (existing->second.success && elapsed < config_.handshake_cooldown) {
+        // The cooldown only short-circuits a repeat of the handshake that was already verified;
+        // a different key or nonce must go through validation again.
+        if (existing->second.success && elapsed < config_.handshake_cooldown
+            && existing->second.remote_public == remote_public_key
+            && existing->second.remote_pow_nonce == remote_work_nonce) {
             return true;
         }
     }
